@@ -92,13 +92,14 @@ type vkKernel struct {
 	syscalls      int
 	emptyReads    int // reads that returned EAGAIN
 	waiting       int // pollers blocked in epoll_wait
+	failAdd       map[int]bool // fds for which EPOLL_CTL_ADD fails (fault injection)
 	log           []string
 }
 
 var vk *vkKernel
 
 func vkReset() *vkKernel {
-	vk = &vkKernel{files: map[*os.File]*vkFile{}}
+	vk = &vkKernel{files: map[*os.File]*vkFile{}, failAdd: map[int]bool{}}
 	vk.fds = make([]*vkFd, 3, 16)
 	vk.allowPartial, vk.allowEAGAIN, vk.allowEINTR, vk.allowFatal = true, true, true, true
 	return vk
@@ -172,6 +173,13 @@ func (f *vkFd) accept(p []byte, src int) {
 }
 
 func vk_Write(fd int, p []byte) (int, error) {
+	verifYield() // a system call is a scheduling point, before and after
+	n, err := vk_Write_impl(fd, p)
+	verifYield()
+	return n, err
+}
+
+func vk_Write_impl(fd int, p []byte) (int, error) {
 	f := vk.get(fd, "write")
 	if f == nil {
 		return -1, syscall.EBADF
@@ -192,6 +200,13 @@ func vk_Write(fd int, p []byte) (int, error) {
 
 // vk_Syscall models writev(2) and eventfd2(2), the two raw syscalls nbio issues.
 func vk_Syscall(trap, a1, a2, a3 uintptr) (uintptr, uintptr, syscall.Errno) {
+	verifYield()
+	r1, r2, e := vk_Syscall_impl(trap, a1, a2, a3)
+	verifYield()
+	return r1, r2, e
+}
+
+func vk_Syscall_impl(trap, a1, a2, a3 uintptr) (uintptr, uintptr, syscall.Errno) {
 	switch trap {
 	case syscall.SYS_WRITEV:
 		f := vk.get(int(a1), "writev")
@@ -229,6 +244,13 @@ func vk_Syscall(trap, a1, a2, a3 uintptr) (uintptr, uintptr, syscall.Errno) {
 }
 
 func vk_Close(fd int) error {
+	verifYield() // a system call is a scheduling point, before and after
+	err := vk_Close_impl(fd)
+	verifYield()
+	return err
+}
+
+func vk_Close_impl(fd int) error {
 	f := vk.get(fd, "close")
 	if f == nil {
 		return syscall.EBADF
@@ -301,6 +323,13 @@ func (f *vkFd) connectDone(result syscall.Errno) {
 }
 
 func vk_Sendfile(outfd, infd int, offset *int64, count int) (int, error) {
+	verifYield() // a system call is a scheduling point, before and after
+	n, err := vk_Sendfile_impl(outfd, infd, offset, count)
+	verifYield()
+	return n, err
+}
+
+func vk_Sendfile_impl(outfd, infd int, offset *int64, count int) (int, error) {
 	out := vk.get(outfd, "sendfile-out")
 	in := vk.get(infd, "sendfile-in")
 	if out == nil || in == nil || in.file == nil {
@@ -350,6 +379,13 @@ func vk_File_Fd(f *os.File) uintptr {
 // ---- inbound
 
 func vk_Read(fd int, p []byte) (int, error) {
+	verifYield() // a system call is a scheduling point, before and after
+	n, err := vk_Read_impl(fd, p)
+	verifYield()
+	return n, err
+}
+
+func vk_Read_impl(fd int, p []byte) (int, error) {
 	f := vk.get(fd, "read")
 	if f == nil {
 		return -1, syscall.EBADF
@@ -411,6 +447,13 @@ func vk_EpollCreate1(flag int) (int, error) {
 }
 
 func vk_EpollCtl(epfd int, op int, fd int, ev *syscall.EpollEvent) error {
+	verifYield() // a system call is a scheduling point, before and after
+	err := vk_EpollCtl_impl(epfd, op, fd, ev)
+	verifYield()
+	return err
+}
+
+func vk_EpollCtl_impl(epfd int, op int, fd int, ev *syscall.EpollEvent) error {
 	vk.syscalls++
 	if fd < 0 || fd >= len(vk.fds) || vk.fds[fd] == nil || !vk.fds[fd].open {
 		vk.ctlErrors = append(vk.ctlErrors, "EBADF")
@@ -419,6 +462,10 @@ func vk_EpollCtl(epfd int, op int, fd int, ev *syscall.EpollEvent) error {
 	f := vk.fds[fd]
 	switch op {
 	case syscall.EPOLL_CTL_ADD:
+		if vk.failAdd[fd] {
+			vk.ctlErrors = append(vk.ctlErrors, "ENOMEM")
+			return syscall.ENOMEM
+		}
 		if f.registered {
 			vk.ctlErrors = append(vk.ctlErrors, "EEXIST")
 			return syscall.EEXIST
